@@ -104,7 +104,7 @@ func expandDefsByHand(lines []string) ([]string, error) {
 }
 
 func rewriteSuffixByHand(lines []string, pairText string) []string {
-	fs := strings.Fields(pairText)
+	fs := asciiFields(pairText)
 	if len(fs) == 0 {
 		return lines
 	}
@@ -121,9 +121,10 @@ func rewriteSuffixByHand(lines []string, pairText string) []string {
 					repl = ""
 				}
 				out[i] = strings.TrimSuffix(l, fs[k]) + repl
-				if out[i] == "" {
+				if out[i] == "" || strings.TrimSpace(out[i]) != out[i] {
 					// an entry rewritten to nothing reaches the assembler as an EMPTY entry; typed in place an empty
-					// line is a blank line and is skipped: the by-hand reading cannot spell this case
+					// line is a blank line and is skipped: the by-hand reading cannot spell this case. The same holds for
+					// an entry that now begins or ends with white space of any kind (typed in place it would be trimmed).
 					out[i] = emptiedEntry
 				}
 				break
@@ -193,7 +194,7 @@ func inlineLinesByHand(files handFiles, lines []string, depth int) ([]string, er
 				return nil, err
 			}
 			excluded := map[string]bool{}
-			for _, x := range strings.Fields(m[2]) {
+			for _, x := range asciiFields(m[2]) {
 				xs, err := inlineFileByHand(files, x, depth+1)
 				if err != nil {
 					return nil, err
@@ -436,6 +437,34 @@ func genParserCases(focus string) func(r *rand.Rand, tier string, env *Env) []Ca
 			n = 5000
 		}
 		var cases []Case
+		if focus == "include" || focus == "except" {
+			// include files that produce no text of their own: only directives (flags must still be refused, a prefix or
+			// suffix must still reach the output), only comments, nothing at all — directly, nested, and as the
+			// subject of include-except
+			empty := [][]byte{{}, {}, {}, {}, {}, {}}
+			inc := map[string]string{"only-flags": "##! shared flags\n##!+ i\n", "only-prefix": "##!^ pre\n", "only-suffix": "##!$ suf\n", "only-both": "##!^ p\n##!$ s\n",
+				"only-comment": "##! nothing here\n\n", "nothing": "", "outer-flags": "##!> include only-flags\n", "outer-prefix": "##!> include only-prefix\n", "only-define": "##!> define k v\n"}
+			var files [][]byte
+			var names []string
+			for k := range inc {
+				names = append(names, k)
+			}
+			sort.Strings(names)
+			for _, k := range names {
+				files = append(files, []byte("i"), []byte(k+".ra"), []byte(inc[k]))
+			}
+			files = append(files, []byte("e"), []byte("none.ra"), []byte("zzz\n"))
+			for _, k := range names {
+				progs := []string{"a\n##!> include " + k + "\nb\n", "##!> include " + k + "\n", "##!> assemble\nx\n##!> include " + k + "\n##!=>\ny\n##!<\n"}
+				if focus == "except" {
+					progs = []string{"a\n##!> include-except " + k + " none\nb\n", "##!> include-except " + k + " none -- a b\n"}
+				}
+				for _, prog := range progs {
+					args := append(append(append([][]byte{}, empty...), []byte(prog)), files...)
+					cases = append(cases, Case{Kind: "textless-include", Ops: []Op{{"parse.run", args[6:]}, {"gen.run", args}}, Oracles: []Op{{"parser.inline", args}}})
+				}
+			}
+		}
 		for i := 0; i < n; i++ {
 			p := parserProgram(r, focus)
 			if focus == "defs" {
@@ -452,7 +481,7 @@ func genParserCases(focus string) func(r *rand.Rand, tier string, env *Env) []Ca
 			// sub-functions on their own
 			if focus == "except" && i%3 == 0 {
 				content := strings.Join([]string{"foo@", "bar~", "##! c", "", "baz", "  x@", "foo@"}[:2+r.Intn(5)], "\n") + "\n"
-				pairs := pick(r, []string{"@ ~", "~ @ @ x", "@ \"\"", "oo 00", "@ ~ ~ x", "a", "@ ~ x", " ", "@  ~\t~  y"})
+				pairs := pick(r, []string{"@ ~", "~ @ @ x", "@ \"\"", "oo 00", "@ ~ ~ x", "a", "@ ~ x", " ", "@  ~\t~  y", "\u00a0@ ~", "@ x\v", "\v@ y\u00a0", "o \u2003"})
 				c.Ops = append(c.Ops, Op{"parse.replaceSuffixes", [][]byte{[]byte(content), []byte(pairs)}})
 			}
 			if focus == "defs" && i%3 == 0 {
@@ -490,8 +519,8 @@ func escalateParser(d Disagreement) []Case {
 		if len(d.Op.Args) != 2 {
 			return nil
 		}
-		content, pairs := d.Op.Args[0], strings.Join(strings.Fields(string(d.Op.Args[1])), " ")
-		if len(strings.Fields(pairs))%2 != 0 || len(strings.Fields(pairs)) == 0 {
+		content, pairs := d.Op.Args[0], strings.Join(asciiFields(string(d.Op.Args[1])), " ")
+		if len(asciiFields(pairs))%2 != 0 || len(asciiFields(pairs)) == 0 {
 			return nil // an odd list is rejected (C16), not rewritten
 		}
 		return []Case{
